@@ -42,8 +42,7 @@ func rtRun(c *driver.Ctx, d *doc, addr string, name string) {
 		desc := fmt.Sprintf("document %s (mode %o): %s\nPut(%s, %s) ; Get ; reload ; Delete", d.name, d.mode, clip(d.text), addr, credStr(cr))
 		if f := rtCase(c, d, pair, cr, i == 2*n+1 && d.name == "entries-unknown-fields" && addr == "https://h/v1/", desc); f != nil {
 			f.Detail = desc + "\n" + f.Detail
-			viol(c, name, f)
-			return
+			viol(c, name, f) // one stored per signature; the enumeration goes on
 		}
 	}
 }
